@@ -1,5 +1,275 @@
 /-
-C19 — property theorems (stub: no theorem stated yet, so no obligation is counted).
+C19 — FAI index and File return exactly the requested subsequence.
+
+Property theorems only (namespace Hts.Props.C19).  Model: Hts/Model/Fai.lean (package fai with the repairs
+fixes/C19-1..3), specification of well-formed FASTA files: Hts/Spec/Fasta.lean.  All theorems quantify over
+EVERY well-formed file (any number of records, any width ≥ 1, LF or CRLF per record, descriptions, blank
+lines before the first and after any record, last record with or without final newline, empty sequences), every range and every
+list of buffer sizes.  No bound on any size except where Go's `int` itself is the bound (text round trip).
 -/
+import Hts.Lemmas.FaiFileText
+set_option linter.unusedVariables false
+set_option linter.unusedSimpArgs false
 namespace Hts.Props.C19
+open Hts.Model.Fai
+open Hts.Spec.Fasta (File Rec Entry)
+open Hts.Lemmas.Fai (ofEntry expectedCalls IndexOK NameOK Small)
+
+/-! ### NewIndex -/
+
+/-- `index_true`: for every well-formed file, `NewIndex` succeeds and returns, in file order, exactly one
+record per sequence whose Name, Length, Start, BasesPerLine and BytesPerLine are the true ones
+(`Spec.Fasta.Rec.entry`: number of bases, offset of the first base, bases and bytes of the first line). -/
+theorem index_true (f : File) (h : f.WF) :
+    newIndex f.render = .ok (f.entries.map ofEntry) :=
+  Hts.Lemmas.Fai.newIndex_render f h
+
+/-- Looking a sequence up by name in that index finds its own true entry. -/
+theorem index_lookup (f : File) (h : f.WF) (idx : Index) (hidx : newIndex f.render = .ok idx)
+    (r : Rec) (hr : r ∈ f.recs) :
+    ∃ pre post, f.recs = pre ++ r :: post ∧
+      idx.lookup r.name =
+        some (ofEntry (r.entry (f.leading.length + (pre.map Rec.render).flatten.length))) := by
+  rw [index_true f h] at hidx
+  cases hidx
+  obtain ⟨R, h1, _, _, pre, post, h4, h5⟩ := Hts.Lemmas.Fai.record_in_file f h r hr
+  exact ⟨pre, post, h4, h5 ▸ h1⟩
+
+/-! ### Position -/
+
+/-- `position_correct`: for every sequence of a well-formed file and every base index `p` below its length,
+`Record.Position p` does not panic and the byte of the file at that offset is base `p`. -/
+theorem position_correct (f : File) (h : f.WF) (idx : Index) (hidx : newIndex f.render = .ok idx)
+    (r : Rec) (hr : r ∈ f.recs) (p : Nat) (hp : p < r.bases.length) :
+    ∃ R, idx.lookup r.name = some R ∧ R.Position p = .ok (R.position p) ∧
+      f.render[R.position p]? = r.bases[p]? := by
+  rw [index_true f h] at hidx
+  cases hidx
+  obtain ⟨R, h1, g, _, _⟩ := Hts.Lemmas.Fai.record_in_file f h r hr
+  refine ⟨R, h1, ?_, ?_⟩
+  · have hne : r.bases ≠ [] := by intro e; rw [e] at hp; simp at hp
+    have := g.bpl_pos hne
+    unfold Record.Position
+    have h1 : ¬ ((p : Int) < 0 ∨ (R.length : Int) ≤ (p : Int)) := by rw [g.len]; omega
+    have h2 : ¬ R.basesPerLine = 0 := by omega
+    rw [if_neg h1, if_neg h2]
+    simp
+  · have hne : r.bases ≠ [] := by intro e; rw [e] at hp; simp at hp
+    have hw := g.bpl_pos hne
+    have hL : p + 1 ≤ R.length := by rw [g.len]; omega
+    obtain ⟨_, _, a3, _⟩ := Hts.Lemmas.Fai.line_arith R.basesPerLine R.bytesPerLine p (p + 1) R.length hw
+      g.bpl_le (by omega) hL
+    have hs := g.slice p 1 (by omega) a3
+    unfold readAt at hs
+    have := congrArg List.head? hs
+    simpa [List.head?_take, List.head?_drop] using this
+
+/-! ### Seq / SeqRange / Read -/
+
+/-- `read_call`: one `Read` call with a buffer of `k` bytes, at any cursor of any valid range of any
+sequence, stores exactly the next `min k (stop - cur)` bases and returns `nil` if the buffer was filled,
+`io.EOF` otherwise. -/
+theorem read_call (f : File) (h : f.WF) (idx : Index) (hidx : newIndex f.render = .ok idx)
+    (r : Rec) (hr : r ∈ f.recs) (R : Record) (hR : idx.lookup r.name = some R)
+    (cur start stop : Nat) (hc : cur ≤ stop) (hs : stop ≤ r.bases.length) (k : Nat) :
+    Seq.read f.render ⟨R, cur, start, stop⟩ k =
+      ⟨(r.bases.drop cur).take (min k (stop - cur)), if k ≤ stop - cur then .nil else .eof,
+       cur + min k (stop - cur)⟩ := by
+  rw [index_true f h] at hidx
+  cases hidx
+  obtain ⟨R', h1, g, _, _⟩ := Hts.Lemmas.Fai.record_in_file f h r hr
+  have e : R' = R := Option.some.inj (h1.symm.trans hR)
+  subst e
+  exact Hts.Lemmas.Fai.read_spec f.render R' r.bases g ⟨R', cur, start, stop⟩ rfl hc hs k
+
+/-- `read_exact`: for all `0 ≤ s ≤ e ≤ length` and EVERY list of buffer sizes, `SeqRange(name, s, e)`
+succeeds and the successive `Read` calls return `bases[s, e)`:
+ (1) call by call they are `expectedCalls` — each call takes the next `k` bases while `k` remain, the first
+     call that cannot be filled returns the remainder with io.EOF and the run stops;
+ (2) the concatenation of everything read is `bases[s, min e (s + Σ sizes))`;
+ (3) if the sizes add up to more than `e - s`, the run is `nil`-calls followed by exactly one `io.EOF`,
+     and by (2) the bytes read are exactly `bases[s, e)`;
+ (4) otherwise no call reports an error. -/
+theorem read_exact (f : File) (h : f.WF) (idx : Index) (hidx : newIndex f.render = .ok idx)
+    (r : Rec) (hr : r ∈ f.recs) (s e : Nat) (hse : s ≤ e) (he : e ≤ r.bases.length) (ks : List Nat) :
+    ∃ sq, seqRange idx r.name s e = .ok sq ∧ sq.cur = s ∧ sq.start = s ∧ sq.stop = e ∧
+      readCalls f.render sq ks = expectedCalls r.bases e s ks ∧
+      ((readCalls f.render sq ks).map (·.1)).flatten = (r.bases.drop s).take (min (e - s) ks.sum) ∧
+      (e - s < ks.sum → ∃ pre d, readCalls f.render sq ks = pre ++ [(d, .eof)] ∧ ∀ x ∈ pre, x.2 = .nil) ∧
+      (ks.sum ≤ e - s → ∀ x ∈ readCalls f.render sq ks, x.2 = .nil) := by
+  have hidx' := hidx
+  rw [index_true f h] at hidx'
+  cases hidx'
+  obtain ⟨R, h1, g, _, _⟩ := Hts.Lemmas.Fai.record_in_file f h r hr
+  have hcalls := Hts.Lemmas.Fai.readCalls_spec f.render R r.bases g s e he ks s hse
+  refine ⟨⟨R, s, s, e⟩, ?_, rfl, rfl, rfl, hcalls, ?_, ?_, ?_⟩
+  · unfold seqRange
+    have h0 : ¬ ((s : Int) < 0 ∨ (e : Int) < 0 ∨ (e : Int) < (s : Int)) := by omega
+    have h2 : ¬ ((R.length : Int) < (s : Int) ∨ (R.length : Int) < (e : Int)) := by rw [g.len]; omega
+    rw [if_neg h0]
+    simp only [h1]
+    rw [if_neg h2]
+    simp
+  · rw [hcalls]; exact Hts.Lemmas.Fai.expectedCalls_data r.bases e ks s
+  · intro hlt; rw [hcalls]; exact Hts.Lemmas.Fai.expectedCalls_eof r.bases e ks s hlt
+  · intro hle; rw [hcalls]; exact Hts.Lemmas.Fai.expectedCalls_nil r.bases e ks s hle
+
+/-- `read_whole`: `File.Seq(name)` is the range `[0, length)`: reading it returns all bases, then io.EOF. -/
+theorem read_whole (f : File) (h : f.WF) (idx : Index) (hidx : newIndex f.render = .ok idx)
+    (r : Rec) (hr : r ∈ f.recs) (ks : List Nat) :
+    ∃ sq, seqWhole idx r.name = .ok sq ∧
+      readCalls f.render sq ks = expectedCalls r.bases r.bases.length 0 ks ∧
+      (r.bases.length < ks.sum → ((readCalls f.render sq ks).map (·.1)).flatten = r.bases) := by
+  have hidx' := hidx
+  rw [index_true f h] at hidx'
+  cases hidx'
+  obtain ⟨R, h1, g, _, _⟩ := Hts.Lemmas.Fai.record_in_file f h r hr
+  have hcalls := Hts.Lemmas.Fai.readCalls_spec f.render R r.bases g 0 r.bases.length (Nat.le_refl _) ks 0
+    (Nat.zero_le _)
+  refine ⟨⟨R, 0, 0, R.length⟩, by simp [seqWhole, h1], ?_, ?_⟩
+  · rw [g.len]; exact hcalls
+  · intro hlt
+    rw [g.len, hcalls, Hts.Lemmas.Fai.expectedCalls_data]
+    simp only [Nat.sub_zero, List.drop_zero]
+    rw [Nat.min_eq_left (by omega)]
+    exact List.take_length
+
+/-- `Reset` after any amount of reading puts the handle back to the state `SeqRange` returned, so every
+statement of `read_exact` holds again after a `Reset`. -/
+theorem reset_restores (idx : Index) (name : Bytes) (s e : Int) (sq : Seq)
+    (h : seqRange idx name s e = .ok sq) (cur : Nat) : ({ sq with cur := cur } : Seq).reset = sq := by
+  unfold seqRange at h
+  split at h
+  · cases h
+  · split at h
+    · cases h
+    · split at h
+      · cases h
+      · cases h; rfl
+
+/-- Ranges outside `0 ≤ start ≤ end ≤ length` are refused (no `Seq` is handed out), for any index. -/
+theorem seqRange_refuses (idx : Index) (name : Bytes) (s e : Int) (R : Record)
+    (hR : idx.lookup name = some R) (hbad : s < 0 ∨ e < s ∨ (R.length : Int) < e) :
+    seqRange idx name s e = .error .outOfRange := by
+  unfold seqRange
+  by_cases h0 : s < 0 ∨ e < 0 ∨ e < s
+  · simp [h0]
+  · have h2 : (R.length : Int) < s ∨ (R.length : Int) < e := by omega
+    simp [h0, hR, h2]
+
+/-! ### NewIndex rejects (two of the code's error branches, after any well-formed prefix whose lines are
+all terminated) -/
+
+/-- a line that is `>` alone, possibly surrounded by white space: "fai: missing sequence name" -/
+theorem newIndex_rejects_nameless_header (f : File) (h : f.WF) (hfin : ∀ r ∈ f.recs, r.finalNewline = true)
+    (line rest : Bytes) (hl : Hts.Lemmas.Fai.Term line) (hb : trimSpace line = [GT]) :
+    newIndex (f.render ++ (line ++ rest)) = .error .missingName :=
+  Hts.Lemmas.Fai.newIndex_nameless f h hfin line rest hl hb
+
+/-- a header repeating the name of an earlier record: "fai: duplicate sequence identifier" -/
+theorem newIndex_rejects_duplicate (f : File) (h : f.WF) (hfin : ∀ r ∈ f.recs, r.finalNewline = true)
+    (r : Rec) (hr : r ∈ f.recs) (d t rest : Bytes) (hd : Hts.Lemmas.Fai.DescTail d)
+    (ht : ∀ b ∈ t, isSpace b = true) (hl : Hts.Lemmas.Fai.Term (GT :: (r.name ++ d) ++ t)) :
+    newIndex (f.render ++ ((GT :: (r.name ++ d) ++ t) ++ rest)) = .error .duplicate :=
+  Hts.Lemmas.Fai.newIndex_duplicate f h hfin r hr d t rest hd ht hl
+
+/-! ### WriteTo / ReadFrom -/
+
+/-- own decimal formatting / parsing round trip (`%d` and `strconv.ParseInt` on Go's `int` range) -/
+theorem decimal_roundtrip (n : Nat) (h : n < 2 ^ 63) : readInt (showNat n) = some (n : Int) :=
+  Hts.Lemmas.Fai.readInt_showNat n h
+
+/-- `fai_roundtrip`: any index with pairwise distinct names (a Go map), names without tab, line feed and
+double quote, and fields in Go's `int` range is read back unchanged from the text `WriteTo` produces: the
+same records (in ascending start order, the order of the text; a permutation of the map's records). -/
+theorem fai_roundtrip (idx : Index) (h : IndexOK idx) :
+    readFrom (writeTo idx) = .ok ((sortByStart idx).map Record.toRaw) ∧ (sortByStart idx).Perm idx :=
+  ⟨Hts.Lemmas.Fai.readFrom_writeTo idx h, Hts.Lemmas.Fai.sortByStart_perm idx⟩
+
+/-- The full-strength statement for files: the index of every well-formed file survives WriteTo/ReadFrom. -/
+def fai_roundtrip_full : Prop :=
+  ∀ (f : File), f.WF → f.render.length < 2 ^ 63 → ∀ idx, newIndex f.render = .ok idx →
+    readFrom (writeTo idx) = .ok (idx.map Record.toRaw)
+
+/-- `fai_roundtrip_partial`: it holds for every well-formed file none of whose names contains a double
+quote (the .fai text is read through encoding/csv, which gives `"` a meaning) — the excluded case is a
+recorded finding, see `fai_roundtrip_witness`.  The records come back in the order of the index itself
+(file order = start order). -/
+theorem fai_roundtrip_partial (f : File) (h : f.WF) (hq : ∀ r ∈ f.recs, DQ ∉ r.name)
+    (hsz : f.render.length < 2 ^ 63) (idx : Index) (hidx : newIndex f.render = .ok idx) :
+    readFrom (writeTo idx) = .ok (idx.map Record.toRaw) := by
+  rw [index_true f h] at hidx
+  cases hidx
+  obtain ⟨hok, hsorted⟩ := Hts.Lemmas.Fai.file_indexOK f h hq hsz
+  have := Hts.Lemmas.Fai.readFrom_writeTo _ hok
+  rw [hsorted] at this
+  exact this
+
+/-- The file `>a"b\nA\n` of the finding. -/
+def quoteFile : File :=
+  { recs := [{ name := [97, 34, 98], desc := none, bases := [65], width := 1, eol := .lf, finalNewline := true,
+               blanksAfter := [] }] }
+
+/-- `fai_roundtrip_witness`: the full statement is false on the code as it is: the well-formed file
+`>a"b\nA\n` is indexed as `a"b 1 5 1 2`, WriteTo prints the name verbatim, and ReadFrom rejects the line
+(csv.ErrBareQuote). -/
+theorem fai_roundtrip_witness : ¬ fai_roundtrip_full := by
+  intro hfull
+  have hwf : quoteFile.WF := by decide
+  have hidx := index_true quoteFile hwf
+  have hent : quoteFile.entries.map ofEntry = [⟨[97, 34, 98], 1, 5, 1, 2⟩] := by
+    simp [quoteFile, File.entries, File.leading, Hts.Spec.Fasta.blankLines, Hts.Spec.Fasta.entriesFrom,
+      Rec.entry, ofEntry, Rec.headerLine, Hts.Spec.Fasta.Eol.bytes]
+  rw [hent] at hidx
+  have hlen : quoteFile.render.length < 2 ^ 63 := by
+    have : quoteFile.render = [62, 97, 34, 98, 10, 65, 10] := by
+      simp [quoteFile, File.render, File.leading, Rec.render, Rec.fileLines, Rec.lines, Rec.headerLine,
+        Hts.Lemmas.Fai.seqLines_single, Hts.Spec.Fasta.terminate, Hts.Spec.Fasta.blankLines,
+        Hts.Spec.Fasta.Eol.bytes, Hts.Spec.Fasta.GT, Hts.Spec.Fasta.LF]
+    rw [this]; decide
+  have := hfull quoteFile hwf hlen _ hidx
+  have hw : writeTo [⟨[97, 34, 98], 1, 5, 1, 2⟩] = [97, 34, 98, 9, 49, 9, 53, 9, 49, 9, 50, 10] := by
+    simp [writeTo, sortByStart, insertByStart, writeRec, Hts.Lemmas.Fai.showNat_lt, digit, TAB, LF]
+  rw [hw] at this
+  have hr : readFrom [97, 34, 98, 9, 49, 9, 53, 9, 49, 9, 50, 10] = .error .bareQuote := by rfl
+  rw [hr] at this
+  cases this
+
+/-! ### Non-vacuity -/
+
+/-- a blank line first; then two records: CRLF with a description, bases a multiple of the width, two blank
+lines after it; then an LF record whose last line is shorter and not terminated -/
+def sampleFile : File :=
+  { leadingBlanks := [[32]], recs :=
+   [{ name := [115, 49], desc := some [32, 100, 32, 101], bases := [65, 67, 71, 84, 65, 67, 71, 84], width := 4,
+      eol := .crlf, finalNewline := true, blanksAfter := [[13], [32, 13]] },
+    { name := [115, 50], desc := none, bases := [71, 71, 84], width := 2, eol := .lf, finalNewline := false,
+      blanksAfter := [] },
+   ] }
+
+example : sampleFile.WF := by decide
+
+/-- an empty sequence followed by another record is well formed too -/
+example : ({ recs := [{ name := [97], desc := none, bases := [], width := 1, eol := .lf, finalNewline := true,
+                        blanksAfter := [[]] },
+                      { name := [98], desc := some [9], bases := [65], width := 60, eol := .lf,
+                        finalNewline := true, blanksAfter := [] }] } : File).WF := by decide
+
+/-- the hypotheses of the rejection theorems are satisfiable: the line `>\n`, and the header `>s1 x\n` -/
+example : Hts.Lemmas.Fai.Term [62, 10] ∧ trimSpace [62, 10] = [GT] :=
+  ⟨⟨[62], by decide, rfl⟩, by decide⟩
+
+example : Hts.Lemmas.Fai.DescTail [32, 120] ∧ Hts.Lemmas.Fai.Term (GT :: ([115, 49] ++ [32, 120]) ++ [10]) :=
+  ⟨Or.inr ⟨32, [120], rfl, by decide, by decide⟩, ⟨[62, 115, 49, 32, 120], by decide, rfl⟩⟩
+
+/-- the hypotheses of `fai_roundtrip` are satisfiable by a two-record index -/
+example : IndexOK [⟨[97], 6, 3, 4, 5⟩, ⟨[98], 6, 15, 4, 5⟩] := by
+  refine ⟨by decide, ?_, ?_⟩
+  · intro r hr
+    simp only [List.mem_cons, List.not_mem_nil, or_false] at hr
+    rcases hr with rfl | rfl <;> (unfold NameOK; decide)
+  · intro r hr
+    simp only [List.mem_cons, List.not_mem_nil, or_false] at hr
+    rcases hr with rfl | rfl <;> (unfold Small; decide)
+
 end Hts.Props.C19
